@@ -13,7 +13,7 @@ def run(tier):
     if tier == "quick":
         plan = [("amb", 2, [0, 1], True), ("prefix", 1, [0, 2], False), ("open", 1, [0], False), ("rec", 1, [2], False)]
     else:
-        plan = [("amb", 3, [0, 1], True), ("prefix", 2, [0, 2, 3], True), ("open", 2, [0, 1], True), ("rec", 2, [0, 2], True), ("list", 2, [0, 3], True)]
+        plan = [("amb", 3, [0], True), ("amb", 2, [1], True), ("prefix", 2, [0, 2, 3], True), ("open", 2, [0, 1], True), ("rec", 2, [0, 2], True), ("list", 2, [0, 3], True)]
     for spec, nops, targets, split in plan:
         for ti, target in enumerate(targets):
             for op0 in (range(9) if split else [-1]):
